@@ -269,8 +269,7 @@ def t_density(sess, kernel, axial):
         nr = poly.Rules()
         want = want.reshape(Tn.shape)
         sess.prove(f"{pt}: result = raw estimates divided by their grid mean (mean 1 before clipping), negatives clipped to 0", pc + [(m != 0).z3()], all_eq(Tn, want))
-        sess.prove(f"{pt}: mean of the normalised estimates before clipping is 1", pc + [(m != 0).z3()],
-                   eq(mean1, 1))
+        sess.prove_nf(f"{pt}: mean of the normalised estimates before clipping is 1", pc + [(m != 0).z3()], poly.Rules(), [mean1], [R(1)])
         sess.prove_nf(f"{pt}: raw estimates independent of the order of the data (the result is a function of them)", pc, nr, raw2, raw)
         if axial:
             sess.prove_nf(f"{pt}: axial data: raw estimates independent of the sign of a datum", pc, nr, raw3, raw)
@@ -278,3 +277,8 @@ def t_density(sess, kernel, axial):
     if not reached:
         sess.reach.append(solve.QueryResult(f"{tag}: reach", "unknown", None, 0.0))
     sample(sess, obligation="point density", config=tag, paths=len(paths))
+
+
+def default_cex(name):
+    """Generic public-API replay for verdicts that carry no more specific counterexample."""
+    return {"replay": "vf.props.replays:c20_geometry", "case": {}, "cls": {"kind": "geometry primitive incorrect"}}
